@@ -67,8 +67,11 @@ func storageParticulateTrapping(inflowMass, storageInflow, storageOutflow, stora
 		storageOutflowRate := storageOutflow.Get(idx)
 		storageWorkingVolume := storageOutflowRate*deltaT + storageVolume.Get(idx)
 
-		concentration := storedMass / storageWorkingVolume
-		massOutRate := storageOutflowRate * concentration
+		massOutRate := 0.0
+		if storageWorkingVolume > 0 {
+			concentration := storedMass / storageWorkingVolume
+			massOutRate = storageOutflowRate * concentration
+		}
 		storedMass = math.Max(storedMass - (massOutRate*deltaT),0.0)
 		outflowLoad.Set(idx, massOutRate)
 	}
